@@ -576,6 +576,9 @@ def rule_e1(ctx: Ctx, m: SharedModel) -> None:
     lv = cls_f.params[1]
     loops = [st for st in cls_f.body if isinstance(st, ast.For)]
     if len(loops) != 1:
+        # other loops may prepare look-up tables: the level loop is the one that ranges from the current end of the cache
+        loops = [st for st in loops if unparse(st.iter).replace(" ", "").startswith("range(len(self.cache)")]
+    if len(loops) != 1:
         raise AnalysisError(f"{cls_f.where}: level loop not recognised")
     lp = loops[0]
     if unparse(lp.iter) in want_rng(lv):
@@ -585,13 +588,21 @@ def rule_e1(ctx: Ctx, m: SharedModel) -> None:
     appends = [s for s in m.sites if s.fi is cls_f and s.kind == "field" and s.op in ("append",)]
     if len(appends) == 1 and lp.body and appends[0].stmt is lp.body[-1] and len(appends[0].node.args) == 1:
         ctx.ok("C02-E1", cls_f.where, "exactly one level is appended per step, unconditionally, as the last action of the step", appends[0].stmt, cls_f)
+    elif len(appends) == 1 and not any(appends[0].stmt is st for st in lp.body) and any(isinstance(st, ast.If) and any(sub is appends[0].stmt for sub in ast.walk(st)) for st in lp.body):
+        ctx.violation("C02-E1", cls_f, lp, "a step of the level loop appends its level only conditionally: cache[i] would no longer be level i")
+    elif len(appends) == 0:
+        ctx.violation("C02-E1", cls_f, lp, "a step of the level loop does not append a level: cache[i] would no longer be level i")
     else:
-        ctx.violation("C02-E1", cls_f, lp, "a step of the level loop does not append exactly one level as its last, unconditional action: cache[i] would no longer be level i")
-    lasts = [st for st in lp.body if isinstance(st, ast.Assign) and unparse(st.value) == "self.cache[-1]"]
-    if len(lasts) == 1:
-        ctx.ok("C02-E1", cls_f.where, "each new level is built from the previous (last) level", lasts[0], cls_f)
+        raise AnalysisError(f"{cls_f.where}: how a step of the level loop appends its level is not recognised")
+    prev_refs = [n for n in ast.walk(lp) if isinstance(n, ast.Subscript) and unparse(n.value) == "self.cache" and isinstance(n.ctx, ast.Load)]
+    ok_prev = [n for n in prev_refs if unparse(n.slice) in ("-1", f"{unparse(lp.target)} - 1", "n", "n - 1") or unparse(n.slice).endswith("- 1")]
+    if prev_refs and len(ok_prev) == len(prev_refs):
+        ctx.ok("C02-E1", cls_f.where, "each new level is built from the previous (last) level", m.stmt_of(cls_f, prev_refs[0]), cls_f)
+    elif not prev_refs:
+        helper_reads = [s2 for s2 in m.sites if False]
+        raise AnalysisError(f"{cls_f.where}: where a new level reads the previous level is not recognised")
     else:
-        ctx.violation("C02-E1", cls_f, lp, "a new level is not built from the last cached level self.cache[-1]")
+        raise AnalysisError(f"{cls_f.where}: a new level reads `{unparse(prev_refs[0])}`; not recognised as the previous level")
     # mesh
     lvm = mesh_f.params[1]
     summ = level_build_summary(mesh_f)
